@@ -197,6 +197,42 @@ theorem C17_private_not_public (T : List (Nat × Nat)) (S : Nat × Nat) (n r : N
       exact absurd (by rw [h.1, h.2]) hz
   simp [isPublic, isGlobal4, hany, hz']
 
+/-- C17_shared_not_public: a CIDR inside the shared address space 100.64.0.0/10 (RFC 6598: neither private nor
+    globally routable) is not public either — "not private" is not the test. -/
+theorem C17_shared_not_public (T : List (Nat × Nat)) (S : Nat × Nat) (n : Nat × Nat) (g : Bool)
+    (hsub : subnetOf 32 n S = true) (hz : n ≠ (0, 0)) : isPublic T S (some n) g = false := by
+  obtain ⟨a, l⟩ := n
+  have hz' : (a == 0 && l == 0) = false := by
+    cases h : (a == 0 && l == 0) with
+    | false => rfl
+    | true =>
+      simp only [Bool.and_eq_true, beq_iff_eq] at h
+      exact absurd (by rw [h.1, h.2]) hz
+  simp [isPublic, isGlobal4, hsub, hz']
+
+/-- containment of networks is reflexive and transitive -/
+theorem subnetOf_refl (bits : Nat) (a : Nat × Nat) : subnetOf bits a a = true := by
+  simp [subnetOf]
+
+theorem subnetOf_trans (bits : Nat) (a b c : Nat × Nat) (h₁ : subnetOf bits a b = true)
+    (h₂ : subnetOf bits b c = true) : subnetOf bits a c = true := by
+  simp only [subnetOf, Bool.and_eq_true, decide_eq_true_eq] at *
+  exact ⟨Nat.le_trans h₂.1 h₁.1, Nat.le_trans h₁.2 h₂.2⟩
+
+/-- C17_narrower_stays_private: every network contained in a non-public one (inside a private range or the shared
+    space) is itself not public, whatever its prefix length — narrowing a rule can never expose it. -/
+theorem C17_narrower_stays_private (T : List (Nat × Nat)) (S : Nat × Nat) (n m r : Nat × Nat) (g : Bool)
+    (hr : r ∈ T ∨ r = S) (hm : subnetOf 32 m r = true) (hn : subnetOf 32 n m = true) (hz : n ≠ (0, 0)) :
+    isPublic T S (some n) g = false := by
+  have hsub := subnetOf_trans 32 n m r hn hm
+  rcases hr with hr | rfl
+  · exact C17_private_not_public T S n r g hr hsub hz
+  · exact C17_shared_not_public T r n g hsub hz
+
+/-- C17_source_group_irrelevant: once a CIDR is present, the source security group plays no part. -/
+theorem C17_source_group_irrelevant (T : List (Nat × Nat)) (S : Nat × Nat) (n : Nat × Nat) (g g' : Bool) :
+    isPublic T S (some n) g = isPublic T S (some n) g' := rfl
+
 /-- the regenerated table of the running interpreter contains the RFC 1918 ranges, loopback and link-local -/
 theorem C17_private_table :
     (167772160, 8) ∈ Generated.privateTable4 ∧ (2886729728, 12) ∈ Generated.privateTable4 ∧
@@ -212,6 +248,9 @@ example : parse6 "2001:DB8::1/32".toList = some (4254076641128259285690398495165
 example : parse6 "::ffff:10.1.2.3/128".toList = some (281470849581571, 128) := by decide +kernel
 example : isPublic Generated.privateTable4 Generated.sharedRange4 (parse4 "10.0.0.0/8".toList) false = false := by decide +kernel
 example : isPublic Generated.privateTable4 Generated.sharedRange4 (parse4 "8.8.8.0/24".toList) false = true := by decide +kernel
+example : isPublic Generated.privateTable4 Generated.sharedRange4 (parse4 "100.64.3.7/16".toList) false = false ∧
+    subnetOf 32 (1681915904, 16) Generated.sharedRange4 = true := by decide +kernel
+example : isPublic Generated.privateTable4 Generated.sharedRange4 (parse4 "100.128.0.0/16".toList) false = true := by decide +kernel
 example : isPublic Generated.privateTable4 Generated.sharedRange4 (parse4 "0.0.0.0/0".toList) false = true := by decide +kernel
 
 end PycfModel.Net
